@@ -328,6 +328,10 @@ type Stores struct {
 
 const sharedQueryText = `name in ["n1", "n3", "n5"] skip 0 limit 100`
 
+// a second shared query, on the staff store: an int64 symbol compared with a float literal (the evaluation
+// promotes the integer through a conversion node of the parsed query)
+const sharedQueryText2 = `level > 0.5 skip 0 limit 100`
+
 const rootBucket = "stores"
 
 func notFoundF(entityType string) func(id string) error {
@@ -369,6 +373,11 @@ func personParentMapper(entity boltz.Entity) boltz.Entity {
 func NewStores(variant int) *Stores {
 	s := &Stores{}
 	base := []string{rootBucket}
+	if variant&4 != 0 {
+		// the same path in a slice with spare capacity (as a path built with append has): whoever extends it in place
+		// shares the backing array with everybody else who did
+		base = append(make([]string, 0, 8), rootBucket)
+	}
 
 	s.Depts = &DeptStore{BaseStore: boltz.NewBaseStore(boltz.StoreDefinition[*Dept]{
 		EntityType: StDepts, EntityStrategy: deptStrategy{}, BasePath: base, EntityNotFoundF: notFoundF(StDepts)})}
@@ -422,7 +431,9 @@ func NewStores(variant int) *Stores {
 		p.AddConstraint(boltz.NewSystemEntityEnforcementConstraint(p))
 	}
 	p.idxName = p.AddUniqueIndex(p.AddSymbol("name", ast.NodeTypeString))
-	p.idxNick = p.AddNullableUniqueIndex(p.AddSymbol("nick", ast.NodeTypeString))
+	// the symbol's name differs from the key of the field it reads ("alias" over the field "nick"): field checkers
+	// talk about keys, queries and index paths about symbol names
+	p.idxNick = p.AddNullableUniqueIndex(p.AddSymbolWithKey("alias", ast.NodeTypeString, "nick"))
 	p.idxRoles = p.AddSetIndex(p.AddPublicSetSymbol("roles", ast.NodeTypeString))
 	symDept := p.AddFkSymbol("dept", s.Depts)
 	p.AddFkIndex(symDept, d.symMembers) // not nullable; restrict on delete of the dept
@@ -515,6 +526,11 @@ func NewStores(variant int) *Stores {
 		}
 		s.sharedQ[name] = q
 	}
+	q2, err := ast.Parse(s.Staff, sharedQueryText2)
+	if err != nil {
+		panic("shared query 2: " + err.Error())
+	}
+	s.sharedQ["staff/level"] = q2
 	return s
 }
 
